@@ -15,7 +15,7 @@ import (
 // and from a live run on the repository, so that the document cannot drift from
 // what the checker does.
 func describe(repo string) int {
-	p, err := an.Load(an.LoadOpts{Dir: repo})
+	p, err := an.LoadNormalized(repo, nil, false)
 	if err != nil {
 		fmt.Fprintln(os.Stderr, "LOAD ERROR:", err)
 		return 2
